@@ -41,8 +41,11 @@ CHECKS = {
          'Equal (pattern, flags) pairs select equal occurrences because re.compile is deterministic; the matching itself is C02/C03.', '4/C20'),
  'C05': ('Theorems C05.* about the clock skeleton of expect_loop and waitnoecho (expect_deadline: finish <= start + T + 2 eps for every event list '
          'satisfying the transport contract; no_early_timeout; none_never_times_out; zero_still_examines; negative_expires_at_once; -1 resolution; '
-         'waitnoecho bounds). Tie: the real transports under a virtual clock (every blocking wait, time.time and sleep interposed); each run is '
-         'replayed through the Lean skeleton (same outcome, finish time, contract satisfied); real-time runs with signals.',
+         'waitnoecho bounds), the per-transport read contracts (Rt.fd / socket / pty / popen) and the EINTR-restarting wrappers of utils.py '
+         '(wait_under_signals_contract: any signal schedule, finish <= T + one handler run, never early, ready only when ready). Tie: the real '
+         'transports under a virtual clock (every blocking wait, time.time and sleep interposed, waits failing with EINTR at scripted moments); each run is '
+         'replayed through the Lean skeleton (same outcome, finish time, contract satisfied); the real wrappers against Rt.selII on random schedules; '
+         'real-time runs with signals.',
          'Partial: the bound assumes each read returns within its timeout + eps; the pty transport breaks that when the child hangs up without exiting '
          '(known finding, witness in Props/C05). Virtual clock: non-blocking system calls cost one tick.', '4/C05'),
  'C06': ('Theorems C06.* for every peer script and adversarial schedule: pty_reads_conserve (delivered ++ unread = written over any read sequence), '
